@@ -487,7 +487,7 @@ class Interp:
                 import struct as _st
                 a = _st.unpack('<f', _st.pack('<f', a))[0]
             elif op == 'fptrunc': raise Unsupported('fptrunc of symbolic value')
-            if rt(I.ty).k not in ('double', 'float', 'x86_fp80') or (rt(I.ty).k == 'x86_fp80' and is_sym(a)): raise Unsupported('long double arithmetic')
+            if rt(I.ty).k not in ('double', 'float', 'x86_fp80') or (rt(I.ty).k == 'x86_fp80' and is_sym(a) and op != 'fpext'): raise Unsupported('long double arithmetic')     # widening a symbolic double is exact; arithmetic on it stays unsupported
             regs[I.dest] = a
         elif op in ('sitofp', 'uitofp'):
             a = V(I.a, I.sty)
